@@ -200,7 +200,72 @@ def plan_c15(tier, seed):
                 minima={"cases": 300, "distinct_nontrivial": 200, "leak_reports_checked": 300, "silent_destructions_checked": 300})
 
 
+CAP_KINDS = ["pool<node>", "pool<array>", "pool<small>"]
+
+
+def plan_c18(tier, seed):
+    q = tier == "quick"
+    jobs = []
+    if q:
+        for cfg in ("rel", "dbg"):
+            for k in CAP_KINDS:
+                jobs += [Job("h_cap", cfg, "plain", "grid", k, c, extra=["--boundary", "1"], cpu=200) for c in chunks(131, 22) if c[1] > 1]
+            jobs += [Job("h_cap", cfg, "plain", "stack", "stack+arena", c, cpu=100) for c in chunks(16, 4)]
+    else:
+        for cfg in ("rel", "rwd", "dbg"):
+            for k in CAP_KINDS:
+                jobs += [Job("h_cap", cfg, "plain", "grid", k, c, cpu=2000) for c in chunks(513, 8) if c[1] > 1]
+            jobs += [Job("h_cap", cfg, "plain", "stack", "stack+arena", c, cpu=300) for c in chunks(64, 4)]
+    # case 0 would be node size 0, which is not a valid node size
+    for j in jobs:
+        if j.group == "grid" and j.cases[0] == 0:
+            j.cases = (1, j.cases[1])
+    cfgs = Q_CFGS if q else T_CFGS
+    n = _scale(tier, 40, 800)
+    ops = _scale(tier, 250, 400)
+    ck = _scale(tier, 40, 100)
+    jobs += pool_jobs(cfgs, ["walk", "phased"], n, ops, ck) + coll_jobs(cfgs, ["walk"], n // 2, ops, ck) \
+        + stack_jobs(cfgs, ["walk", "phased"], n, ops, ck, kinds=STACK_KINDS + ITER_KINDS + ["static_allocator"])
+    plan = dict(jobs=jobs, level="exploration",
+                rule="(a) grid: one case = one node size of one pool type; for every node count of the tier's set (quick: counts <= 16, within 2 of a "
+                     "multiple of 255, powers of two and a 2% seeded sample, node sizes 1..130; thorough: every count 1..2000 for every node size "
+                     "1..512) a pool is built with min_block_size(size, count) over a counting upstream and must report room for count nodes from one "
+                     "block, serve them for a sample, and grow by what next_capacity() announced; memory_stack / memory_arena min_block_size for every "
+                     "byte size of the chunk. (b) histories of pools, collections, stacks, iteration and static allocators with the capacity figure "
+                     "compared with a model before and after every operation. non-trivial = grid case, or a history with growth and release, or an "
+                     "exact min_block_size check; distinct = FNV-1a of kind, configuration and operation sequence",
+                assumptions=ASSUME_COMMON, minima={"cases": 300, "distinct_nontrivial": 200, "constructions": 10000, "nodes_served": 100000,
+                                                   "growth_checks": 300})
+    if not q:
+        plan["exhaustive_note"] = "the min_block_size grid 3 pool types x node sizes 1..512 x counts 1..2000 is enumerated completely in the thorough tier"
+    return plan
+
+
+def plan_c19(tier, seed):
+    q = tier == "quick"
+    jobs = []
+    for fl in (["asan"] if q else ["asan", "plain", "casan"]):
+        jobs += [Job("h_arith", "rwd", fl, "small", "all", c, cpu=120) for c in chunks(64, 8)]
+        jobs += [Job("h_arith", "rwd", fl, "boundary", "all", c, cpu=120) for c in chunks(65, 13)]
+        jobs += [Job("h_arith", "rwd", fl, "buckets", "all", (0, 8), cpu=120)]
+    nrand = 16 if q else 100
+    per = 62500 if q else 1000000
+    jobs += [Job("h_arith", "rwd", "asan" if q else "plain", "random", "all", c, extra=["--samples", str(per)], cpu=300) for c in chunks(nrand, 1)]
+    return dict(jobs=jobs, level="exploration",
+                rule="inputs: the complete domain 1..65536 x all 64 power-of-two alignments; 2^k + d for every k in 0..64 and |d| <= 64 x all 64 "
+                     "alignments; seeded 64-bit values x a seeded alignment; bucket selection for every size 1..max for three list types x two bucket "
+                     "distributions x eight maximum node sizes. evaluations = function evaluations compared with a definitional reference (loops / "
+                     "128-bit arithmetic); distinct_nontrivial = distinct (function input) tuples, counted exactly for the enumerated domains and by a "
+                     "hash set for seeded samples of up to 2e6 values (larger sample runs count 0 for their part). Results not representable in 64 "
+                     "bits are counted (not_representable_unjudged) and not judged.",
+                assumptions=["the reference implementations are correct", "x86-64, 64-bit size_t"],
+                minima={"evals": 4000000, "distinct_inputs": 4000000},
+                cov_from_events={"evaluations": "evals", "distinct_nontrivial": "distinct_inputs"})
+
+
 PLANS = {
+    "C18": plan_c18,
+    "C19": plan_c19,
     "C01": plan_c01,
     "C02": plan_c02,
     "C04": plan_c04,
